@@ -291,6 +291,18 @@ func (g *G) siblings(env *Env, depth int) *Comp {
 	}
 	s.Shared = true
 	wrap := func() *Comp {
+		// half of the time a sibling extends the shared parent in the parent's own manner (another hook
+		// on a stack of hooks, another member on a tee of tees, another filter on a filter)
+		if r.P(1, 2) {
+			switch s.Kind {
+			case "hooks":
+				return hook(s)
+			case "tee":
+				return &Comp{Kind: "tee", Kids: []*Comp{s, g.Composition(env, 0)}}
+			case "increase":
+				return &Comp{Kind: "increase", Enab: g.Enabler(env.Atomics), Kids: []*Comp{s}}
+			}
+		}
 		switch r.Intn(5) {
 		case 0, 1:
 			return &Comp{Kind: "tee", Kids: []*Comp{s, g.Composition(env, 0)}}
